@@ -193,7 +193,7 @@ func registryCheck(cr *checkRun, regName, label string, fulls []string, safetyOn
 				continue
 			}
 			generated++
-			if writing || cr.tier == "thorough" || reg[o.Name] {
+			if writing || cr.tier == "thorough" || reg[o.Name] || o.Kind == "frame.store" {
 				all = append(all, o)
 			}
 		}
@@ -231,7 +231,8 @@ func registryCheck(cr *checkRun, regName, label string, fulls []string, safetyOn
 			}
 			continue
 		}
-		if reg[o.Name] {
+		if reg[o.Name] || o.Kind == "frame.store" {
+			// frame.store obligations (never write the caller's option struct) are always part of the claim
 			cr.nObl++
 			cr.handleSweepFailure(o)
 		}
@@ -272,6 +273,11 @@ func shortNames(fulls []string, max int) []string {
 }
 
 func (cr *checkRun) handleSweepFailure(o *Oblig) {
+	if kf := cr.knownFindingFor(o.Name); kf != nil {
+		cr.nObl--
+		cr.knownHit[kf.ID] = o.Name
+		return
+	}
 	full := ""
 	for f := range cr.prog.Funcs {
 		if shortName(f) == o.Unit {
